@@ -125,6 +125,8 @@ def run(facts, rep, tier):
                        "message carries a fresh additive mask (%s) [%s]" % (table["%s#%d" % (name, k)]["leaves"], req) if c == "A" else
                        "message of a masking protocol has no pseudo-random term in its additive closure (leaves: %s): the receiver "
                        "sees a value that depends on another party's data [%s]" % (table["%s#%d" % (name, k)]["leaves"], req), b.loc(nb))
+    masks_hidden(facts, rep)
+    planner_products(facts, rep)
     rep.tables["send_payload_classes"] = table
     rep.tables["classes"] = {"A": "one-time-pad shape: additive closure contains PRF/random/zero-share term",
                              "P": "composition with a random permutation (shuffle protocols)", "K": "PRF key distribution",
@@ -133,6 +135,185 @@ def run(facts, rep, tier):
     for f_, why in REQUIRE_MASK.items():
         rep.ob("C03.M", "anchor:%s" % f_, any(k.startswith(f_) for k in table), "masking protocol %s has Send sites" % f_)
     rep.floor("C03.M", "messages of the named masking protocols", sum(1 for k in table if any(k.startswith(f_) for f_ in REQUIRE_MASK)), 8)
+
+
+PRFS = ("graphs::Graph::prf", "graphs::Node::prf")
+
+
+def _key_index(b, fl, t, bb):
+    """index k of the key-triple component a prf() call uses, when the key is `triple.tuple_get(k)` with a literal k"""
+    cn = callee_name(t)
+    ka = t["args"][1] if cn == "graphs::Graph::prf" else t["args"][0]
+    ks = set()
+    for o in fl.origins(ka, (bb, None)):
+        if o[0] == "call" and o[2] in ("graphs::Node::tuple_get", "graphs::Graph::tuple_get"):
+            ia = b.term(o[1])["args"][-1]
+            if ia[0] == "k" and ia[4] is not None:
+                ks.add(int(ia[4]))
+                continue
+        return None
+    return ks.pop() if len(ks) == 1 else None
+
+
+def _closure_prf_keys(facts, b, fl, cname):
+    """key-triple indices of every prf() inside closure `cname` created in body b (keys captured from b); None = unresolved"""
+    cb = facts.bodies.get(cname)
+    site = [(bb, j, rv) for bb, j, place, rv in b.assigns() if rv[0] == "agg" and rv[1].get("k") == "closure" and rv[1].get("def") == cname]
+    if cb is None or len(site) != 1:
+        return None
+    sb, sj, srv = site[0]
+    cfl = Flow(facts, cb, C02.EXTRA)
+    out = []
+    for bb, t in cb.calls():
+        cn = callee_name(t)
+        if cn in MASK and cn not in PRFS or cn in PERM:
+            return None
+        if cn not in PRFS or cb.is_cleanup(bb):
+            continue
+        ka = t["args"][1] if cn == "graphs::Graph::prf" else t["args"][0]
+        ks = set()
+        for o in cfl.origins(ka, (bb, None)):
+            if o[0] != "upvar" or o[1] >= len(srv[2]):
+                return None
+            for po in fl.origins(srv[2][o[1]], (sb, sj)):
+                if po[0] == "call" and po[2] in ("graphs::Node::tuple_get", "graphs::Graph::tuple_get"):
+                    ia = b.term(po[1])["args"][-1]
+                    if ia[0] == "k" and ia[4] is not None:
+                        ks.add(int(ia[4]))
+                        continue
+                return None
+        if len(ks) != 1:
+            return None
+        out.append(ks.pop())
+    return out
+
+
+def masks_hidden(facts, rep):
+    """C03.H: the pseudo-random term that masks a message is one the receiver cannot compute"""
+    from .. import intexpr as IE
+    rep.rule("C03.H", "a mask hides a message only from a party that cannot recompute it: for every Send whose payload's additive "
+                      "closure contains pseudo-random terms that can all be resolved (PRF under key-triple component k, held by "
+                      "parties k and k-1; element i of a zero sharing, computable by party i), at least one of them is unknown to "
+                      "the receiver, for every value of the loop index")
+    n = 0
+    fds = {}
+    cl_ = Classifier(facts)
+    for name, b in C02.mpc_bodies(facts):
+        if "/mpc/" not in b.file:
+            continue
+        fl = None
+        k = -1
+        for bb, j, place, rv in b.assigns():
+            if not (rv[0] == "agg" and rv[1].get("adt") == "graphs::NodeAnnotation" and rv[1].get("vn") == "Send"):
+                continue
+            k += 1
+            fl = fl or Flow(facts, b, C02.EXTRA)
+            sa, ra = IE.build(fl, b, rv[2][0]), IE.build(fl, b, rv[2][1])
+            vs_ = IE.variables(sa) | IE.variables(ra)
+            if len(vs_) > 1 or IE.unknown(sa) or IE.unknown(ra):
+                continue
+            v = list(vs_)[0] if vs_ else None
+            envs = [{v: i} for i in range(3)] if v is not None else [{}]
+            recv = [IE.evaluate(ra, e) for e in envs]
+            if any(r is None for r in recv):
+                continue
+            nops = [o[1] for bb2, t2 in b.calls() if callee_name(t2) == "graphs::Node::add_annotation"
+                    and any(o2[0] == "agg" and o2[1] == bb and o2[2] == j for o2 in fl.origins(t2["args"][1], (bb2, None)))
+                    for o in fl.origins(t2["args"][0], (bb2, None)) if o[0] == "call" and o[2] in C02.NOPS]
+            for nb in nops:
+                t3 = b.term(nb)
+                pay = [a for a in t3["args"] if a[0] != "k" and "graphs::Node" in b.local_ty(a[1][0])]
+                if not pay:
+                    continue
+                cone = C02._additive_cone(b, fl, pay[-1], (nb, None))
+                masks = []      # (description, [known-to-receiver per env]) or None when unresolved
+                for ib in sorted(cone):
+                    ti = b.term(ib)
+                    cn = callee_name(ti) or ""
+                    if cn in PRFS:
+                        ki = _key_index(b, fl, ti, ib)
+                        masks.append(None if ki is None else
+                                     ("PRF(key %d)" % ki, [r in (ki % 3, (ki - 1) % 3) for r in recv]))
+                    elif cn in ("graphs::Graph::random",) or cn in PERM:
+                        masks.append(None)
+                    elif cn.endswith("::index") and len(ti["args"]) == 2:
+                        ro = fl.origins(ti["args"][0], (ib, None))
+                        if any(o[0] == "call" and o[2] in C02.SOURCES for o in ro):
+                            ia = IE.build(fl, b, ti["args"][1])
+                            if IE.unknown(ia) or not IE.variables(ia) <= ({v} if v is not None else set()):
+                                masks.append(None)
+                            else:
+                                ix = [IE.evaluate(ia, e) for e in envs]
+                                masks.append(None if any(x is None for x in ix) else
+                                             ("zero share %s" % ix, [x % 3 == r for x, r in zip(ix, recv)]))
+                    elif cn in MASK:
+                        masks.append(None)
+                # masks contributed through local closures (e.g. share_for_two): every prf() in the closure counts
+                fd = fds.get(name) or fds.setdefault(name, cl_.flow(b))
+                for o in fd.origins(pay[-1], (nb, None)):
+                    cb = facts.bodies.get(o[2]) if o[0] == "call" else None
+                    if cb is None or cb.kind != "closure":
+                        continue
+                    ck = _closure_prf_keys(facts, b, fl, o[2])
+                    if ck is None:
+                        masks.append(None)
+                        continue
+                    masks += [("PRF(key %d) in closure" % ki, [r in (ki % 3, (ki - 1) % 3) for r in recv]) for ki in ck]
+                    # what the closure is applied to at this call site
+                    for a in b.term(o[1])["args"][1:]:
+                        for ib in C02._additive_cone(b, fl, a, (o[1], None)):
+                            cn2 = callee_name(b.term(ib)) or ""
+                            if cn2 in PRFS:
+                                ki = _key_index(b, fl, b.term(ib), ib)
+                                masks.append(None if ki is None else
+                                             ("PRF(key %d)" % ki, [r in (ki % 3, (ki - 1) % 3) for r in recv]))
+                            elif cn2 in MASK or cn2 in PERM:
+                                masks.append(None)
+                if not masks or any(m is None for m in masks):
+                    continue
+                n += 1
+                bad = [i for i in range(len(envs)) if all(m[1][i] for m in masks)]
+                rep.ob("C03.H", "%s|send#%d" % (name, k), not bad,
+                       "receiver(s) %s cannot recompute at least one of the masks %s" % (recv, [m[0] for m in masks]) if not bad else
+                       "every pseudo-random term masking this message (%s) is computable by its receiver (party %s): the mask "
+                       "can be removed and the receiver sees the unmasked value" % ([m[0] for m in masks], [recv[i] for i in bad]),
+                       b.loc(nb))
+    rep.analysed["send_sites_with_resolved_masks"] = n
+    rep.floor("C03.H", "Send sites whose masks are all resolved", n, 1)
+
+
+def planner_products(facts, rep):
+    """shared with C02.K: a private x private product left un-reshared is revealed / consumed without re-randomisation"""
+    rep.rule("C03.K", "products are re-randomised before any share leaves a party: the operations the planner marks as 3-out-of-3 "
+                      "products are exactly those sanity_pass keeps marked (shared with C02.K product-sets-agree)")
+    C02.planner(facts, _Relabel(rep))
+
+
+class _Relabel:
+    """forwards C02.K obligations under the C03.K label"""
+    def __init__(self, rep):
+        self.rep = rep
+
+    def __getattr__(self, n):
+        return getattr(self.rep, n)
+
+    def _r(self, rule):
+        return rule.replace("C02.K", "C03.K")
+
+    def rule(self, rule, text):
+        pass
+
+    def ob(self, rule, key, *a, **kw):
+        return self.rep.ob(self._r(rule), key, *a, **kw)
+
+    def anchor(self, rule, *a, **kw):
+        return self.rep.anchor(self._r(rule), *a, **kw)
+
+    def floor(self, rule, *a, **kw):
+        return self.rep.floor(self._r(rule), *a, **kw)
+
+    def fail(self, rule, *a, **kw):
+        return self.rep.fail(self._r(rule), *a, **kw)
 
 
 def reveal(facts, rep):
